@@ -44,7 +44,7 @@ func c17Layouts(ntok int, thorough bool) []struct {
 		{"oneline", Layout{StmtSep: "sp"}},
 		{"semisp", Layout{StmtSep: "semisp"}},
 	}
-	comments := []string{"--x\n", "--[[x]]", "--[==[x\ny\nz]==]", "--[x\n", "--]]\n", "--[[\n]]"}
+	comments := []string{"--x\n", "--[[x]]", "--[==[x\ny\nz]==]", "--[x\n", "--]]\n", "--[[\n]]", "--[==[a]=\nb]\nc]==]", "--[=[a]\nb]==\n]=]"}
 	for ci, c := range comments {
 		for _, g := range []int{1, 7, ntok / 2, ntok - 3} {
 			if g >= 1 && g < ntok {
@@ -102,6 +102,9 @@ func genFaultLine(thorough bool) Gen {
 			{"len", func() Stat { return Local1("x", Un("#", Name("nilv"))) }, false},
 			{"unm", func() Stat { return Local1("x", Un("-", Name("obj"))) }, false},
 			{"forinit", func() Stat { return NumFor("i", Name("nilv"), Num(2), nil) }, false},
+			{"forinit-body", func() Stat { return NumFor("i", Name("nilv"), Num(2), nil, Emit(Name("i")), Local1("q", Name("i"))) }, false},
+			{"forlimit-body", func() Stat { return NumFor("i", Num(1), Name("obj"), nil, Emit(Name("i")), Local1("q", Name("i"))) }, false},
+			{"forstep-body", func() Stat { return NumFor("i", Num(1), Num(2), Str("x"), Emit(Name("i")), Local1("q", Name("i"))) }, false},
 			{"error1", func() Stat { return CallS(Name("error"), Str("m")) }, false},
 			{"error1x", func() Stat { return CallS(Name("error"), Str("m"), Num(1)) }, false},
 			{"error0", func() Stat { return CallS(Name("error"), Str("m"), Num(0)) }, false},
@@ -140,6 +143,9 @@ func genFaultLine(thorough bool) Gen {
 			{"do", func(s Stat) []Stat { return []Stat{Do(Local1("z", Num(1)), s)} }},
 			{"inner", func(s Stat) []Stat { return []Stat{LocalFunc("inner", Func(nil, false, s)), CallS(Name("inner"))} }},
 			{"after-longstring", func(s Stat) []Stat { return []Stat{Local1("ls", &StrExpr{V: "a\nb\nc", Raw: "[[a\nb\nc]]"}), s} }},
+			{"after-longstring-eq", func(s Stat) []Stat {
+				return []Stat{Local1("ls", &StrExpr{V: "a]=\nb]\nc]==\nd", Raw: "[===[a]=\nb]\nc]==\nd]===]"}), Local1("l2", &StrExpr{V: "x]\n", Raw: "[=[x]\n]=]"}), s}
+			}},
 			{"after-closure", func(s Stat) []Stat {
 				return []Stat{Local1("fn", Func(names("q"), false, Return(Name("q")))), Local(names("a", "b"), CallN("fn", Num(1)), Num(2)), s}
 			}},
@@ -466,6 +472,13 @@ func genLocals(thorough bool) Gen {
 			{"shadow", func() []Stat {
 				return []Stat{Local1("a", Num(1)), Local1("a", Num(2)), Do(Local1("a", Num(3)), Local1("b", Num(4))), Local1("c", Num(5))}
 			}},
+			{"shadow-inner", func() []Stat {
+				return []Stat{Local1("x", Str("outer")), Local1("y", Str("why")), Do(Local1("x", Str("inner")), Local1("w", Num(1))), Local1("z", Num(4)), If(Name("x"), Local1("y", Str("inner-y"))), Local1("last", Num(9))}
+			}},
+			{"nested-loops", func() []Stat {
+				return []Stat{Local1("acc", Num(0)), NumFor("i", Num(1), Num(2), nil, NumFor("j", Num(1), Num(2), nil, Assign1(Name("acc"), Bin("+", Name("acc"), Name("j")))), Local1("after", Name("acc"))),
+					GenFor(names("k"), []Expr{CallN("ipairs", TableE(Pos1(Str("p"))))}, GenFor(names("k2"), []Expr{CallN("ipairs", TableE(Pos1(Str("q"))))}, Local1("in2", Name("k2"))), Local1("after2", Name("k"))), Local1("end1", Num(1))}
+			}},
 			{"blocks", func() []Stat {
 				return []Stat{Local1("a", Num(1)), Do(Local1("b", Num(2)), Do(Local1("c", Num(3)))), Local1("d", Num(4)), If(Name("a"), Local1("e", Num(5))), Local1("f", Num(6))}
 			}},
@@ -515,7 +528,7 @@ func genLocals(thorough bool) Gen {
 								return CallS(Name("plocals"), Num(float64(k)))
 							}
 							// set every named local `a` (and p1) then list
-							return Do(CallS(Name("setl"), Str("a"), Str("SET-a")), CallS(Name("setl"), Str("p1"), Str("SET-p1")), CallS(Name("setl"), Str("b"), Str("SET-b")), CallS(Name("plocals"), Num(float64(k))))
+							return Do(CallS(Name("setl"), Str("a"), Str("SET-a")), CallS(Name("setl"), Str("p1"), Str("SET-p1")), CallS(Name("setl"), Str("b"), Str("SET-b")), CallS(Name("setl"), Str("y"), Str("SET-y")), CallS(Name("setl"), Str("acc"), Num(100)), CallS(Name("plocals"), Num(float64(k))))
 						})
 						// observe the effect on the program after the probe as well
 						body.Stats = append(body.Stats, CallS(Name("plocals"), Str("end")))
